@@ -73,21 +73,29 @@ CHECKS = {
     "C05": dict(
         text="Coq theorems over the model of the integrator templates (policies as parameters, induction over every "
              "accept/reject history): at every Rosenbrock attempt, first or retry, separate-L/U or in-place, the matrix "
-             "handed to Factor is I/(gamma H) - J(y) (C05_rosenbrock_matrix_every_attempt); every backward-Euler iteration "
+             "handed to Factor is I/(gamma H) - J(y) (C05_rosenbrock_matrix_every_attempt); the stage loop, which keeps function "
+             "values in the not-yet-computed stage slots and hands them from stage to stage, computes exactly the stages of the "
+             "declared method written without that sharing, F_i = f(Y + sum a_ij K_j) or F_(i-1), K_i = Solve(F_i + sum (c_ij/H) K_j), "
+             "for every table, stage count, flag vector and previous slot contents "
+             "(C05_rosenbrock_stages_are_the_declared_method); every backward-Euler iteration "
              "is a Newton iteration with matrix I/H - J(y) and residual f(y) - (y - y_n)/H. Tie: the real "
              "AbstractRosenbrockSolver / BackwardEuler templates driven by scripted recording policies, every "
              "accept/reject word up to length 4 (6 thorough), custom dyadic tables, exact equality of the complete call "
              "trace (arguments of every forcing / Jacobian / Factor / Solve / error-norm call, result, counters). "
              "Implementation oracle: diagonal shift recovered from the factored matrix vs the H recovered from the stage "
              "formulas. The check found and the repository now fixes (fix: e318cbe) the wrong re-basing after two rejections.",
-        note="Stage formulas are the model's definition, tied by the exact trace comparison rather than proved against a second "
-             "specification. Trusted: Coq kernel, extraction, scripted policies on both sides, harness.",
+        note="The combination of the stages into the new state and the error estimate (sums with m_ and e_) is the model's "
+             "definition, tied by the exact trace comparison. Trusted: Coq kernel, extraction, scripted policies on both sides, harness.",
         technique="Coq proof (loop invariants over accept/reject histories) + scripted-policy exact trace tie",
         ref="6 C05"),
     "C06": dict(
         text="Coq: the seven counters equal the numbers of operations in the trace for every policy set and history, both "
              "integrators (C06_rosenbrock_counters_equal_operations, be_ok); final_time_ is exactly the ordered sum of the step "
-             "sizes of the accepted attempts, however the Solve ends (C06_rosenbrock_final_time_is_sum_of_accepted_steps). The clause 'Converged only if the whole "
+             "sizes of the accepted attempts, however the Solve ends (C06_rosenbrock_final_time_is_sum_of_accepted_steps); the "
+             "status returned is the one whose condition occurred - Converged: the loop guard on t failed; "
+             "ConvergenceExceededMaxSteps: the step count passed the limit; StepSizeTooSmall: H absorbed or below round_off; "
+             "NaNDetected / InfDetected: an attempt of the run had such an error norm; nothing else is ever returned "
+             "(C06_rosenbrock_status_is_truthful, C06_backward_euler_converged_means_interval_covered). The clause 'Converged only if the whole "
              "interval was integrated' is REFUTED on the faithful model (C06_converged_without_progress_refuted, witness by "
              "vm_compute) and replayed on the implementation: recorded as known findings. Tie and oracle as C05 with time "
              "steps down to 2^-60 and continuation remainders; the oracle checks counters against the calls the policies "
